@@ -26,7 +26,7 @@ RULE_TEXT = 'one obligation per configuration, per sibling pair, per settings-li
 ASSUMPTIONS = ['pyparsing combinator semantics as modelled in sa/grammar.py',
                'decides the structural conditions; the round trip of property documents itself is not decided (keys are written bare, see C02)']
 ENGINES = ['pyindex', 'grammar', 'paths']
-TECHNIQUE = 'static analysis (ast): grammar IR sibling comparison and results-name reachability per option value; guard polarity/dominance by path enumeration at the render gates; keyword forwarding'
+TECHNIQUE = 'static analysis (ast): grammar IR sibling comparison and results-name reachability per option value; guard polarity/dominance by path enumeration at the render gates; keyword forwarding; shared-state write scan of the parser package (the selected grammar is per-parser state)'
 
 
 def run(ctx, col: Collector):
